@@ -48,6 +48,7 @@ def check(m, run):
     rp1(m, run)
     c17.dom1(m, run)
     ep1(m, run)
+    ep2(m, run)
     grid_order(m, run)
     try:
         from .. import skel_drivers
@@ -193,6 +194,41 @@ def ep1(m, run):
                         good = all((not t) or t == {k} for k, t in enumerate(tags))
                         run.ob('EP1.start-stop-order', '%s :: %s' % (fi.key, kwn), good, '%s list is in (u, v, w) order' % kwn if good else
                                '%s list `%s` is not in (u, v, w) order: directions %s' % (kwn, norm(v), [ra.fmt(t) for t in tags]), site(fi, calls[0]))
+
+
+def ep2(m, run):
+    """single-parameter and derivative entry points hand the caller's own parameter(s) to the evaluator, in (u, v, w) order"""
+    for cname, pdim in (('Curve', 1), ('Surface', 2), ('Volume', 3)):
+        ci = m.cls('BSpline', cname)
+        fi = ci.methods.get('evaluate_single')
+        ps = params_of(fi.node)
+        calls = [c for c in walk_no_nested(fi.node) if isinstance(c, ast.Call) and isinstance(c.func, ast.Attribute) and c.func.attr == 'evaluate'
+                 and norm(c.func.value) == 'self._evaluator']
+        ok = False
+        if len(calls) == 1:
+            kw = {k.arg: norm(k.value) for k in calls[0].keywords}
+            ok = kw.get('start') == ps[1] and kw.get('stop') == ps[1]
+            rets = [r for r in walk_no_nested(fi.node) if isinstance(r, ast.Return) and r.value is not None]
+            ok = ok and len(rets) == 1 and isinstance(rets[0].value, ast.Subscript) and norm(rets[0].value.slice) == '0'
+        run.ob('EP2.single-parameter', fi.key, ok, 'evaluates the one-point grid start = stop = param and returns its point' if ok else
+               'evaluate_single does not evaluate exactly at its own parameter (start/stop/returned element)', site(fi))
+        fd = ci.methods.get('derivatives')
+        if fd is None or pdim == 3:
+            continue
+        ps = params_of(fd.node)
+        calls = [c for c in walk_no_nested(fd.node) if isinstance(c, ast.Call) and isinstance(c.func, ast.Attribute) and c.func.attr == 'derivatives'
+                 and norm(c.func.value) == 'self._evaluator']
+        ok = False
+        if len(calls) == 1:
+            kw = {k.arg: norm(k.value) for k in calls[0].keywords}
+            pos = [norm(a) for a in calls[0].args]
+            par = kw.get('parpos', pos[1] if len(pos) > 1 else None)
+            order = kw.get('deriv_order', pos[2] if len(pos) > 2 else None)
+            want_par = ps[1] if pdim == 1 else '(%s)' % ', '.join(ps[1:1 + pdim])
+            ok = par == want_par and order == ps[1 + pdim] and (pos[:1] == ['self.data'] or kw.get('datadict') == 'self.data')
+        run.ob('EP2.derivative-entry', fd.key, ok, 'derivatives(self.data, parpos=%s, deriv_order=order)' % ('u' if pdim == 1 else '(u, v)') if ok else
+               'the derivative entry point does not pass its own parameters in (u, v) order and its own order', site(fd))
+    run.floor('EP2.single-parameter', 3, 'curve, surface, volume')
 
 
 def grid_order(m, run):
